@@ -85,3 +85,18 @@ Proof.
   exists (pview xid m). split; [exact Hp|].
   rewrite (ops_repeatable_shaped _ ops (pview_shaped m xid Hok)). rewrite Hr. reflexivity.
 Qed.
+
+(* the same for the switch-side kinds whose parsed value is the written value *)
+From LOF Require Import Model.BuildSw Proofs.ParseSwAll2P Proofs.ParseSwAll3P Proofs.ParseSwRtP.
+Theorem sw_decoded_ops_repeatable : forall s xid ops,
+  sw_ok s = true -> sw_payload_ok s -> sw_payload_shaped s -> sw_plain s = true -> xid < 4294967296 ->
+  let bytes := wire (sw_tree xid s) in
+  exists v, parse_top bytes = Ok v /\
+            run_ops v ops = map (fun o => match o with OpLen => RLen (glen v) | OpMarshal => RBytes bytes end) ops.
+Proof.
+  intros s xid ops Hok Hpl Hsh Hp Hx bytes. destruct (sw_roundtrip s xid Hok Hpl Hsh Hp Hx) as [Hparse Hre]. fold bytes in Hparse, Hre.
+  exists (sw_tree xid s). split; [exact Hparse|].
+  assert (Hs : shaped (sw_tree xid s) = true).
+  { unfold sw_tree. apply norm_keeps. apply sw_raw_shaped; assumption. }
+  rewrite (ops_repeatable_shaped _ ops Hs), Hre. reflexivity.
+Qed.
